@@ -49,6 +49,10 @@ let string_of_z = function Z0 -> "0" | Zpos p -> string_of_pos p | Zneg p -> "-"
 
 (* ---- printing ------------------------------------------------------------ *)
 let cur_mask : bool list ref = ref []
+(* size of the register the current op names (bound on what an iterator can still yield) *)
+let cur_size : int ref = ref 0
+(* count / last / collect: how the hidden tail of the script outputs is summarised *)
+let cur_post : (string * int) option ref = ref None
 let buf = Buffer.create 65536
 let pr s = Buffer.add_string buf s
 let pr_elem ((k, pl), p) =
@@ -84,7 +88,23 @@ let pr_out = function
         | [], _ -> []
         | x :: l', [] -> x :: filt l' []
         | x :: l', b :: m' -> if b then x :: filt l' m' else filt l' m' in
-      pr "script "; pr_list "," pr_sout (filt l !cur_mask)
+      let visible = filt l !cur_mask in
+      (match !cur_post with
+       | None -> pr "script "; pr_list "," pr_sout visible
+       | Some (mode, k) ->
+           let n = List.length l in
+           let tail = List.filteri (fun i _ -> i >= n - k) l in
+           let somes = List.filter (fun o -> match o with SElem (Some _) | SMut (Some _) -> true | _ -> false) tail in
+           pr "script [";
+           List.iteri (fun i x -> if i > 0 then pr ","; pr_sout x) visible;
+           if visible <> [] then pr ",";
+           (match mode with
+            | "count" -> pr "count:"; pr (string_of_int (List.length somes))
+            | "last" -> pr "last:";
+                (match List.rev somes with x :: _ -> pr_sout x | [] -> pr "e:-")
+            | _ -> pr "collect:"; pr (string_of_int (List.length somes));
+                List.iter (fun x -> pr "/"; pr_sout x) somes);
+           pr "]")
   | OutInvalid -> pr "invalid"
   | OutUnwound -> pr "unwound"
   | OutFault f -> pr "fault "; pr_fault f
@@ -161,8 +181,15 @@ let script toks = match toks with
       let n = int_of_string n in
       if List.length rest <> n then raise (Bad "script length");
       let ex = List.map expand_step rest in
-      cur_mask := List.concat (List.map snd ex);
-      (adaptor_of a, List.concat (List.map fst ex), iend_of e)
+      (* count() / last() / collect(): std's defaults call next() until None:
+         at most (size + 1) further calls; their outputs are summarised *)
+      let (tail, e') = match e with
+        | "count" | "last" | "collect" ->
+            cur_post := Some (e, !cur_size + 1);
+            (rep (!cur_size + 1) id_next, "drop")
+        | _ -> cur_post := None; ([], e) in
+      cur_mask := List.concat (List.map snd ex) @ rep (List.length tail) false;
+      (adaptor_of a, List.concat (List.map fst ex) @ tail, iend_of e')
   | _ -> raise (Bad "script")
 
 (* predicate tables for retain: key -> (write, keep), with a default verdict *)
@@ -239,8 +266,74 @@ let rec parse_op toks : zop =
   | "fuse" :: k :: rest -> OFuse (nat_s k, parse_op rest)
   | _ -> raise (Bad (String.concat " " toks))
 
+(* ---- exhaustive small-scope closure --------------------------------------
+   driver --bfs <pq|dpq> <nkeys> <nprios> <maxstates> <out.hist>
+   Breadth-first closure of the raw states (contents in slot order + both
+   tables) of one queue over a small alphabet: from every state reached, every
+   operation of the alphabet is emitted as one history (shortest path to the
+   state, then the operation).  Both sides then run those histories. *)
+let state_key m =
+  Buffer.clear buf; List.iteri pr_reg m; let s = Buffer.contents buf in Buffer.clear buf; s
+
+let bfs kind nkeys nprios maxstates outfile =
+  let oc = open_out outfile in
+  let sides = if kind = "pq" then ["max"] else ["min"; "max"] in
+  let ops = ref [] in
+  let add s = ops := s :: !ops in
+  for k = 0 to nkeys - 1 do
+    for p = 0 to nprios - 1 do
+      add (Printf.sprintf "push 0 %d %d %d" k k p);
+      add (Printf.sprintf "chg 0 %d %d" k p);
+      add (Printf.sprintf "pushinc 0 %d 0 %d" k p);
+      add (Printf.sprintf "pushdec 0 %d 0 %d" k p)
+    done;
+    add (Printf.sprintf "remove 0 %d" k)
+  done;
+  List.iter (fun sd ->
+    add ("pop 0 " ^ sd); add ("peek 0 " ^ sd);
+    add (Printf.sprintf "popif 0 %s - - 1" sd);
+    for p = 0 to nprios - 1 do
+      add (Printf.sprintf "popif 0 %s %d - 0" sd p)
+    done) sides;
+  add "retainmut 0 1 1 0 - 0"; add "retainmut 0 1 1 1 0 1";
+  add (Printf.sprintf "itermut 0 direct drop 1 n:%d:-" (nprios - 1)); add "itermut 0 direct drop 2 n n:0:-";
+  let ops = List.rev !ops in
+  let m0 = fst (zstep O (init_machine (nat_of_int 1)) (parse_op ["new"; kind; "0"])) in
+  let seen = Hashtbl.create 100000 in
+  Hashtbl.replace seen (state_key m0) ();
+  let q = Queue.create () in
+  Queue.add (m0, []) q;
+  let hid = ref 0 and nstates = ref 1 in
+  while not (Queue.is_empty q) do
+    let (m, path) = Queue.pop q in
+    List.iter (fun o ->
+      let toks = String.split_on_char ' ' o in
+      let (m', out) = zstep O m (parse_op toks) in
+      (* one history per (state, op) *)
+      output_string oc (Printf.sprintf "H %d 0 1\nnew %s 0\n" !hid kind);
+      List.iter (fun x -> output_string oc x; output_char oc '\n') (List.rev path);
+      output_string oc o; output_char oc '\n';
+      (* finish with a full drain so that the order is observed *)
+      List.iter (fun sd -> output_string oc ("sortedvec 0 " ^ sd ^ "\n")) sides;
+      incr hid;
+      if not (is_fault out) then begin
+        let key = state_key m' in
+        if not (Hashtbl.mem seen key) && !nstates < maxstates then begin
+          Hashtbl.replace seen key (); incr nstates;
+          Queue.add (m', o :: path) q
+        end
+      end) ops
+  done;
+  close_out oc;
+  Printf.printf "bfs %s keys=%d prios=%d: %d states, %d histories\n" kind nkeys nprios !nstates !hid
+
 (* ---- main loop ----------------------------------------------------------- *)
 let () =
+  if Array.length Sys.argv > 1 && Sys.argv.(1) = "--bfs" then begin
+    bfs Sys.argv.(2) (int_of_string Sys.argv.(3)) (int_of_string Sys.argv.(4))
+      (int_of_string Sys.argv.(5)) Sys.argv.(6);
+    exit 0
+  end;
   let ic = if Array.length Sys.argv > 1 then open_in Sys.argv.(1) else stdin in
   let oc = if Array.length Sys.argv > 2 then open_out Sys.argv.(2) else stdout in
   let m = ref (init_machine (nat_of_int 4)) in
@@ -261,6 +354,16 @@ let () =
            pr "H "; pr id; pr "\n"
        | _ ->
            if not !dead then begin
+             (* the register named by the op (second token, after a fuse prefix) *)
+             let rtoks = (match toks with "fuse" :: _ :: rest -> rest | _ -> toks) in
+             cur_post := None;
+             cur_size := (match rtoks with
+               | _ :: r :: _ -> (match int_of_string_opt r with
+                   | Some r -> (match List.nth_opt !m r with
+                       | Some (Some (_, s)) -> List.length s.smap
+                       | _ -> 0)
+                   | None -> 0)
+               | _ -> 0);
              let o = parse_op toks in
              let (m', out) = zstep !mode !m o in
              m := m';
